@@ -176,7 +176,12 @@ static string Manifest(const JV& jfiles) {
     pools += "{\"name\":" + JEsc(p.first) + ",\"depth\":" + to_string(p.second->depth()) + "}";
   }
   pools += "]";
-  return "{\"ok\":true,\"err\":\"\",\"edges\":" + edges + ",\"defaults\":" + JL(defs) + ",\"pools\":" + pools + "}";
+  // what a plain `ninja` builds: the default statements' targets, else the outputs nothing consumes
+  string derr;
+  vector<string> builds;
+  for (Node* n : state.DefaultNodes(&derr)) builds.push_back(n->path());
+  if (!derr.empty()) { builds.clear(); builds.push_back("<no root nodes>"); }
+  return "{\"ok\":true,\"err\":\"\",\"edges\":" + edges + ",\"defaults\":" + JL(defs) + ",\"pools\":" + pools + ",\"builds\":" + JL(builds) + "}";
 }
 
 // -- depfile ---------------------------------------------------------------------
